@@ -13,7 +13,8 @@ def run(ctx):
     ctx.proof_side(DIRS, "Properties/C16.v", extra_trusted=[
         "hand-written interleaving model of runtime/workerpool/workerpool.go + task.go and of Stack.Push/PopOrWait/SignalShutdown (Model.v), tied to the code by the correspondence check only",
         "Counter.WaitIsZero and WaitGroup.Wait are modelled as steps enabled iff the awaited condition holds (condition-variable discipline of Counter: C17); critical sections without blocking calls are single steps",
-        "group.go: the subscription callbacks run inside Counter.update under the child's mutex; modelled as one atomic propagation per counter change (Group.v)",
+        "group.go (WaitChildren/WaitParents aggregation) is NOT modelled: exercised by /repo's own tests only",
+        "shutdown termination of the repaired model is not proved in general (C16_shutdown_terminates_full_statement): covered by the correspondence runs (watchdogs) and by the refutation/regression schedules only",
     ])
     if thorough:
         for k in range(5):
